@@ -78,6 +78,15 @@ class FilesystemIsolation(ContextDecorator):
         to_add = (self._abspath(p) for p in paths if p is not None)
         self._created.update(to_add)
 
+    @staticmethod
+    def _not_existing(*paths: os.PathLike | str | None) -> list[os.PathLike | str]:
+        """Provide those paths that do not exist (yet).
+
+        Only a path that does not exist before a call can be created by that call; an
+        existing path must not be recorded, or it would be removed on exit.
+        """
+        return [p for p in paths if p is not None and not os.path.lexists(p)]
+
     def _forget(self, *paths: os.PathLike | str | None) -> None:
         """Forget paths (on deletion/move). Uses discard to avoid exceptions."""
         for p in paths:
@@ -157,11 +166,12 @@ class FilesystemIsolation(ContextDecorator):
                 and not (dst_may_be_dir and os.path.isdir(dst))  # noqa: PTH112
             ):
                 self._check_isolated(dst)
+            new_paths = self._not_existing(rec, dst)
 
             res = original_func(*args, **kwargs)
 
             try:
-                self._record_created(rec, dst)
+                self._record_created(*new_paths)
             except Exception:  # noqa: BLE001
                 _LOGGER.warning("Failed to update bookkeeping for %s", original_func)
 
@@ -185,6 +195,7 @@ class FilesystemIsolation(ContextDecorator):
             mode = kwargs.get("mode", args[1] if len(args) > 1 else "r")
             # a file descriptor is not a path
             path = None if isinstance(file_arg, int) else file_arg
+            new_paths = self._not_existing(path)
             # only allow writing to an existing file if it is isolated; an exclusive
             # creation fails anyway
             if (
@@ -198,7 +209,7 @@ class FilesystemIsolation(ContextDecorator):
             f = original_func(*args, **kwargs)
             if isinstance(mode, str) and self._is_write_mode(mode):
                 try:
-                    self._record_created(file_arg)
+                    self._record_created(*new_paths)
                 except Exception:  # noqa: BLE001
                     _LOGGER.warning("Failed to record created file: %s", file_arg)
             return f
@@ -222,6 +233,7 @@ class FilesystemIsolation(ContextDecorator):
         @functools.wraps(original_func)
         def tracked_os_open(path, flags, *args, **kwargs):
             should_record = bool(flags & write_flags)
+            new_paths = self._not_existing(path)
             # only allow writing to an existing file if it is isolated; an exclusive
             # creation fails anyway
             exclusive = os.O_CREAT | os.O_EXCL
@@ -230,7 +242,7 @@ class FilesystemIsolation(ContextDecorator):
             fd = original_func(path, flags, *args, **kwargs)
             if should_record:
                 try:
-                    self._record_created(path)
+                    self._record_created(*new_paths)
                 except Exception:  # noqa: BLE001
                     _LOGGER.warning("Failed to record created path: %s", path)
             return fd
